@@ -24,8 +24,9 @@ def _signed(x, w):
 
 
 class Interp:
-    def __init__(self, mod, f, observe=None, budget=200000, params=None):
+    def __init__(self, mod, f, observe=None, budget=200000, params=None, load_hook=None):
         self.mod, self.f, self.observe, self.budget = mod, f, observe, budget
+        self.load_hook = load_hook        # load_hook(insn) -> int | None: value of a load that the caller fixes (an enumerated parameter field)
         self.pd = f.postdominators()
         self.steps = 0
         self.params = params or {}
@@ -108,8 +109,16 @@ class Interp:
                     e1, e2 = dict(env), dict(env)
                     pv1 = self.region(blk, tt, j, e1)
                     pv2 = self.region(blk, tf, j, e2)
+                    if pv1 is None and pv2 is None:
+                        return None
                     if pv1 is None or pv2 is None:
-                        raise AnalysisBroken('%s: a data-dependent arm starting in %s returns before the join' % (f.name, blk))
+                        # one arm returns (an early exit on a data-dependent test): execution continues with the other arm only
+                        keep_e, keep_pv = (e2, pv2) if pv1 is None else (e1, pv1)
+                        env.clear()
+                        env.update(keep_e)
+                        entered = keep_pv
+                        prev, blk = None, j
+                        break
                     env.clear()
                     for k in set(e1) | set(e2):
                         a, b_ = e1.get(k, TOP), e2.get(k, TOP)
@@ -190,6 +199,14 @@ class Interp:
                 sa, sb = _signed(a, w2), _signed(b, w2)
                 r = int({'eq': ua == ub, 'ne': ua != ub, 'ugt': ua > ub, 'uge': ua >= ub, 'ult': ua < ub, 'ule': ua <= ub,
                          'sgt': sa > sb, 'sge': sa >= sb, 'slt': sa < sb, 'sle': sa <= sb}[i.extra['pred']])
+        elif op == 'load':
+            v = self.load_hook(i) if self.load_hook is not None else None
+            if v is None and i.ops[0].startswith('@'):
+                g = self.mod.globals.get(i.ops[0][1:], '')
+                m = re.search(r'\bconstant i\d+ (-?\d+)', g)
+                if m:
+                    v = int(m.group(1))       # a read-only scalar global: its initialiser
+            r = TOP if v is None else v
         elif op == 'select':
             c = self.val(i.ops[0], env)
             if c != TOP:
